@@ -1,7 +1,7 @@
 (* C06/Properties.v — property theorems only (each closed by [exact lemma] and followed by
    [Print Assumptions]).  Model: C06/Model.v (the code after fix commits 3a7f18b, 811f017, 2c8a29b). *)
-From Coq Require Import String Permutation Morphisms.
-From RM Require Import C06.Model C06.GenModel C06.Proofs C06.Proofs2 C06.Proofs3 C06.Proofs4 C06.Proofs5 C06.Proofs6 C06.Proofs7 C06.Proofs8 C06.Driver C06.GenDriver Gen.UnwindConsts.
+From Coq Require Import String Permutation Morphisms Sorted.
+From RM Require Import C06.Model C06.GenModel C06.Proofs C06.Proofs2 C06.Proofs3 C06.Proofs4 C06.Proofs5 C06.Proofs6 C06.Proofs7 C06.Proofs8 C06.Proofs9 C06.Driver C06.GenDriver Gen.UnwindConsts.
 Open Scope Z_scope.
 
 (* No Panic and no OutOfFuel: for ALL rule texts (arbitrary byte strings), every walker (any
@@ -390,3 +390,26 @@ Example c06_nonvacuous_retokenise :
     substr input 9 19 = bs "$rsp 	 8 +" /\
     split_ws (substr input 9 19) = [bs "$rsp"; bs "8"; bs "+"].
 Proof. eexists [_], _. vm_compute. repeat split; reflexivity. Qed.
+
+(* Record selection, which c06_refines_spec shares between implementation model and [cfi_spec], against an
+   independent statement of "rules at or below the address are applied in address order": for every list of delta
+   records (file order) and lookup address, finish_item's sort followed by walk_frame's prefix loop selects exactly
+   the records with address <= lookup (as a multiset: duplicates kept), in non-decreasing address order; and an INIT
+   record covers exactly the non-empty interval [address, address + size) whose end fits u64. *)
+Theorem c06_selection_spec :
+  (forall addr deltas,
+     let sel := take_applicable addr (sort_cfi deltas) in
+     Permutation sel (filter (at_or_below addr) deltas) /\ StronglySorted addr_le sel /\
+     (forall d, In d sel <-> In d deltas /\ fst d <= addr)) /\
+  (forall r addr,
+     cfi_covers r addr = true <->
+     c_size r <> 0 /\ fst (c_init r) + c_size r < 2 ^ 64 /\ fst (c_init r) <= addr < fst (c_init r) + c_size r).
+Proof. exact (conj selection_spec cfi_covers_spec). Qed.
+Print Assumptions c06_selection_spec.
+
+Example c06_nonvacuous_selection :
+  take_applicable 20 (sort_cfi [(30, bs "a: 1"); (20, bs "b: 2"); (7, bs "c: 3"); (20, bs "a: 9"); (21, bs "d: 4")])
+  = [(7, bs "c: 3"); (20, bs "a: 9"); (20, bs "b: 2")] /\
+  cfi_covers (mkCfi (18446744073709551600, bs ".cfa: 1 .ra: 2") 15 []) 18446744073709551614 = true /\
+  cfi_covers (mkCfi (18446744073709551600, bs ".cfa: 1 .ra: 2") 16 []) 18446744073709551614 = false.
+Proof. vm_compute. repeat split; reflexivity. Qed.
